@@ -25,6 +25,7 @@ func c18(c *Ctx) {
 	c18R4(c)
 	c18R5(c)
 	c18R6(c)
+	ruleFixedNamePod(c, "C18.R6")
 }
 
 // alwaysReachesFrom: every non-pruned path that starts right after a node
